@@ -116,8 +116,10 @@ impl Cfg {
         g.insert("admin_username".into(), format!("\"{}\"", ADMIN_USER));
         g.insert("admin_password".into(), format!("\"{}\"", ADMIN_PASS));
         g.insert("connect_timeout".into(), "1000".into());
+        // generous unless a property is about this limit: on a loaded machine the pooler's own
+        // round trips (health check, parameter sync) must not time out for lack of CPU
+        g.insert("healthcheck_timeout".into(), "5000".into());
         g.insert("idle_timeout".into(), "600000".into());
-        g.insert("healthcheck_timeout".into(), "1000".into());
         g.insert("healthcheck_delay".into(), "30000".into());
         g.insert("shutdown_timeout".into(), "5000".into());
         g.insert("ban_time".into(), "60".into());
